@@ -234,12 +234,42 @@ theorem spm_mat_roundtrip {α : Type} [CommRing α] (a hdrAff : Aff α) (xFlip :
     spmReadMat xFlip .both (spmWriteMat xFlip a) hdrAff = a ∧
     spmReadMat xFlip .mOnly (spmWriteMat xFlip a) hdrAff = a := L.spm_mat_roundtrip a hdrAff xFlip
 
+/-- the same with the writer's and the reader's `default_x_flip` independent (instance attribute set before
+    saving, header subclass, other loading class): the 'mat' variable (alone, with 'M', or as a 4x4xN stack)
+    never sees either flag; 'M' alone comes back unchanged when the flags agree and with the first ROW negated
+    when they differ; an empty file leaves the header's affine -/
+theorem spm_mat_roundtrip_flips {α : Type} [CommRing α] (a hdrAff : Aff α) (fw fr : Bool) :
+    spmReadMat fr .both (spmWriteMat fw a) hdrAff = a ∧
+    spmReadMat fr .matOnly (spmWriteMat fw a) hdrAff = a ∧
+    spmReadMat fr .mat3d (spmWriteMat fw a) hdrAff = a ∧
+    spmReadMat fr .mOnly (spmWriteMat fw a) hdrAff = (if fw = fr then a else a.flipX) ∧
+    spmReadMat fr .none (spmWriteMat fw a) hdrAff = hdrAff := L.spm_mat_roundtrip_flips a hdrAff fw fr
+
+example : spmReadMat true .mOnly (spmWriteMat false (⟨⟨0, 0, 2, 3, 0, 0, 0, -5, 0⟩, ⟨1, 2, 3⟩⟩ : Aff Rat))
+    ⟨⟨1, 0, 0, 0, 1, 0, 0, 0, 1⟩, ⟨0, 0, 0⟩⟩ = ⟨⟨0, 0, -2, 3, 0, 0, 0, -5, 0⟩, ⟨-1, 2, 3⟩⟩ := by decide +kernel
+
 /-- image level: an SPM image reloaded with its `.mat` file has exactly the affine it was saved
-    with — for EVERY supplied header, every `allclose`, every rounding (exact arithmetic in the
-    `.mat` products; the float version is finding `spm-mat:translation-ulp`) -/
-theorem spm_image_roundtrip (E : Ext) (shape : List Nat) (a : Aff Rat) (hdr : Option AHdr) (mode : MatMode)
-    (hm : mode ≠ .none) : (analyzeRoundtrip E .spm shape a hdr mode).affine = a :=
-  L.spm_image_roundtrip E shape a hdr mode hm
+    with — for EVERY supplied header, every `allclose`, every rounding, EVERY `default_x_flip` configuration at
+    construction / save / load (for a file holding 'M' only the saving and the loading flag must agree) (exact
+    arithmetic in the `.mat` products; the float version is finding `spm-mat:translation-ulp`) -/
+theorem spm_image_roundtrip (E : Ext) (fl : Flips) (shape : List Nat) (a : Aff Rat) (hdr : Option AHdr)
+    (mode : MatMode) (hm : mode ≠ .none) (hf : mode = .mOnly → fl.save = fl.load) :
+    (analyzeRoundtrip E .spm fl shape a hdr mode).affine = a :=
+  L.spm_image_roundtrip E fl shape a hdr mode hm hf
+
+example : (analyzeRoundtrip exactExt .spm ⟨true, false, true⟩ [3, 5, 7] ⟨⟨0, 0, 2, 4, 0, 0, 0, -8, 0⟩, ⟨1, 2, 3⟩⟩ none
+    .both).affine = ⟨⟨0, 0, 2, 4, 0, 0, 0, -8, 0⟩, ⟨1, 2, 3⟩⟩ :=
+  spm_image_roundtrip exactExt ⟨true, false, true⟩ _ _ none .both (by decide) (by decide)
+
+/-- … and a file holding 'M' only, written under one convention and read under the other, comes back with
+    the x row negated ('M' "does not include flips"): the one configuration where SPM + `.mat` does not
+    return the saved affine -/
+theorem spm_image_roundtrip_M_mismatch (E : Ext) (fl : Flips) (shape : List Nat) (a : Aff Rat) (hdr : Option AHdr)
+    (hne : fl.save ≠ fl.load) :
+    (analyzeRoundtrip E .spm fl shape a hdr .mOnly).affine = a.flipX :=
+  L.spm_image_roundtrip_M_mismatch E fl shape a hdr hne
+
+example : (⟨true, false, true⟩ : Flips).save ≠ (⟨true, false, true⟩ : Flips).load := by decide
 
 /-! ### fallback affine -/
 
@@ -355,23 +385,33 @@ theorem gen_xform_codes_ok :
 
 /-! ### Analyze: voxel sizes only -/
 
-/-- plain Analyze keeps the voxel sizes only: when the header is rewritten (affine not `allclose` to
-    the header's fallback) the reloaded zooms are the rounded column norms of the affine and the
-    reloaded affine is the shape/zoom fallback of those zooms -/
-theorem analyze_roundtrip_zooms (E : Ext) (n1 n2 n3 : Nat) (rest : List Nat) (a : Aff Rat) (hdr : Option AHdr)
-    (mode : MatMode)
+/-- plain Analyze — and SPM without a `.mat` file — keep the voxel sizes only: when the constructor rewrites
+    the header (affine not `allclose` to the header's own affine under the `default_x_flip` in force at
+    construction) the reloaded zooms are the rounded column norms of the affine, whatever the flag is when
+    saving, and the reloaded affine is the loading header's fallback for those zooms (shape/zoom affine for
+    Analyze, origin affine for SPM) under the LOADING flag -/
+theorem analyze_roundtrip_zooms (E : Ext) (k : AKind) (fl : Flips) (n1 n2 n3 : Nat) (rest : List Nat) (a : Aff Rat)
+    (hdr : Option AHdr) (mode : MatMode) (hk : k = .analyze ∨ mode = .none)
     (hfar : ¬ E.allclose a ((match hdr with
         | none => defaultAHdr (n1 :: n2 :: n3 :: rest)
-        | some h => { h with shape := n1 :: n2 :: n3 :: rest }).bestAffine .analyze)) :
-    analyzeRoundtrip E .analyze (n1 :: n2 :: n3 :: rest) a hdr mode
-      = ⟨shapeZoomAffine (n1 :: n2 :: n3 :: rest) ((a.m.colNorm2.map E.sqrt).map E.rnd) true,
+        | some h => { h with shape := n1 :: n2 :: n3 :: rest }).bestAffine k fl.init)) :
+    analyzeRoundtrip E k fl (n1 :: n2 :: n3 :: rest) a hdr mode
+      = ⟨(⟨n1 :: n2 :: n3 :: rest, (a.m.colNorm2.map E.sqrt).map E.rnd,
+            (match hdr with | none => ⟨0, 0, 0⟩ | some h => h.origin)⟩ : AHdr).bestAffine k fl.load,
          (a.m.colNorm2.map E.sqrt).map E.rnd⟩ :=
-  L.analyze_roundtrip_zooms E n1 n2 n3 rest a hdr mode hfar
+  L.analyze_roundtrip_zooms E k fl n1 n2 n3 rest a hdr mode hk hfar
 
-example : analyzeRoundtrip exactExt .analyze [3, 5, 7] ⟨⟨0, 0, 2, 4, 0, 0, 0, -8, 0⟩, ⟨1, 2, 3⟩⟩ none .both
+example : analyzeRoundtrip exactExt .analyze Flips.dflt [3, 5, 7] ⟨⟨0, 0, 2, 4, 0, 0, 0, -8, 0⟩, ⟨1, 2, 3⟩⟩ none .both
     = ⟨shapeZoomAffine [3, 5, 7] ⟨4, 8, 2⟩ true, ⟨4, 8, 2⟩⟩ := by
-  have h := analyze_roundtrip_zooms exactExt 3 5 7 [] ⟨⟨0, 0, 2, 4, 0, 0, 0, -8, 0⟩, ⟨1, 2, 3⟩⟩ none .both
-    (by decide +kernel)
+  have h := analyze_roundtrip_zooms exactExt .analyze Flips.dflt 3 5 7 [] ⟨⟨0, 0, 2, 4, 0, 0, 0, -8, 0⟩, ⟨1, 2, 3⟩⟩ none .both
+    (Or.inl rfl) (by decide +kernel)
+  rw [h]; decide +kernel
+
+example : analyzeRoundtrip exactExt .spm ⟨true, false, false⟩ [3, 5, 7] ⟨⟨0, 0, 2, 4, 0, 0, 0, -8, 0⟩, ⟨1, 2, 3⟩⟩
+      (some ⟨[3, 5, 7], ⟨1, 1, 1⟩, ⟨2, 2, 2⟩⟩) .none
+    = ⟨⟨⟨4, 0, 0, 0, 8, 0, 0, 0, 2⟩, ⟨-4, -8, -2⟩⟩, ⟨4, 8, 2⟩⟩ := by
+  have h := analyze_roundtrip_zooms exactExt .spm ⟨true, false, false⟩ 3 5 7 [] ⟨⟨0, 0, 2, 4, 0, 0, 0, -8, 0⟩, ⟨1, 2, 3⟩⟩
+    (some ⟨[3, 5, 7], ⟨1, 1, 1⟩, ⟨2, 2, 2⟩⟩) .none (Or.inr rfl) (by decide +kernel)
   rw [h]; decide +kernel
 
 /-! ### constants regenerated from the source (Generated/C04.lean) -/
